@@ -764,6 +764,13 @@ with SqlImpl.impl_store.impl_manager as impl:
 
         @impl(ops.floordiv)
         def _floordiv(lhs, rhs):
+            # an untyped null literal is an integer here, else sqlalchemy emits
+            # FLOOR(lhs / rhs), which e.g. its own FLOOR for SQLite cannot
+            # evaluate for NULL
+            if isinstance(lhs.type, sqa.types.NullType):
+                lhs = sqa.type_coerce(lhs, sqa.BigInteger())
+            if isinstance(rhs.type, sqa.types.NullType):
+                rhs = sqa.type_coerce(rhs, sqa.BigInteger())
             return lhs // rhs
 
     @impl(ops.pow)
